@@ -300,6 +300,23 @@ def _apply(op, k, taken, lo, hi):
 FLIP = {"Gt": "Lt", "Lt": "Gt", "Ge": "Le", "Le": "Ge", "Eq": "Eq", "Ne": "Ne"}
 
 
+def range_consts(b, c):
+    """(lo, hi) inclusive of the constant range a `contains` call is made on, or None: RangeInclusive::new(a, b), or a Range / RangeInclusive aggregate."""
+    r = b.origin(c.args[0], through_calls=("deref",))
+    while r[0] in ("ref", "deref", "copy"):
+        r = r[1]
+    if r[0] == "call" and r[1].callee.get("name") == "new" and "RangeInclusive" in (r[1].callee.get("full") or r[1].callee.get("path") or "") and len(r[1].args) == 2:
+        a_, c_ = mir.o_const_value(b.origin(r[1].args[0])), mir.o_const_value(b.origin(r[1].args[1]))
+        if isinstance(a_, int) and isinstance(c_, int):
+            return (a_, c_)
+    if r[0] == "agg" and (r[1].get("adt") or "").endswith("range::Range") and len(r[2]) == 2:
+        f = dict(zip(r[1]["fields"], r[2]))
+        a_, c_ = mir.o_const_value(f.get("start", ("unknown",))), mir.o_const_value(f.get("end", ("unknown",)))
+        if isinstance(a_, int) and isinstance(c_, int):
+            return (a_, c_ - 1)
+    return None
+
+
 def guard_bounds(b, bb, match):
     """(lo, hi) implied for the quantity recognised by match(origin)->bool from comparisons with constants on
     switch edges that dominate bb."""
@@ -310,6 +327,13 @@ def guard_bounds(b, bb, match):
         while so[0] == "unop" and so[1] == "Not":
             so = so[2]
             neg = not neg
+        if so[0] == "call" and so[1].callee.get("name") == "contains" and len(so[1].args) == 2:
+            # `(a..=b).contains(&x)` / `(a..b).contains(&x)` with constant ends: on the true edge a <= x <= b (resp. < b)
+            rng = range_consts(b, so[1])
+            item = b.origin(so[1].args[1], through_calls=("deref",))
+            if rng and match(item) and (list(vals) != ["0"]) != neg:
+                lo, hi = max(lo, rng[0]), min(hi, rng[1])
+            continue
         if so[0] != "binop" or so[1] not in FLIP:
             # PartialOrd/PartialEq calls on integers do not occur (primitive compares are binops)
             continue
